@@ -36,6 +36,12 @@ def make_array(spec):
     radii = np.array([0.0, 1.7, 3.1, 12.5])
     pos = np.array([radii[i % 4] * d for i, d in enumerate(dirs)])
     rows = np.array([np.concatenate([p, q]) for p in pos for q in quats])
+    if spec.get("order") == "large":        # more rows than any internal buffer size (2**14 + a bit)
+        big = np.tile(rows, (int(np.ceil(17100 / len(rows))), 1))[:17100]
+        shift = (np.arange(len(big)) % 97)[:, None] * np.array([[0.013, -0.007, 0.011]])
+        rows = big.copy()
+        rows[:, :3] += shift
+        return rows
     if spec.get("order") == "orientation_slow":
         rows = np.array([np.concatenate([p, q]) for q in quats for p in pos])
     elif spec.get("order") == "shuffled":
@@ -107,7 +113,7 @@ def run_case(case):
                                observed=P[n1:][:2].tolist()))
                 break
         # the generator itself: frames kept by the caller and inspected after the generator has moved on
-        if not vs:
+        if not vs and len(arr) <= 2000:
             try:
                 kept = list(Pseudotrajectory(u1, u2, arr).generate_pseudotrajectory())
                 if [i for i, _ in kept] != list(range(len(arr))):
@@ -128,6 +134,8 @@ def run_case(case):
             if U2 is not U and not all(np.array_equal(a, np.asarray(t.positions)) for a, t in zip(frames, U2.trajectory)):
                 vs.append(viol(pre + "|second_call", "calling the getter twice returns different frames", case))
             ks = case.get("single_rows") or list(range(len(arr)))
+            if len(arr) > 2000:
+                ks = ks[::40]
             for k in ks:
                 try:
                     Uk = Pseudotrajectory(u1, u2, arr[k:k + 1]).get_pt_as_universe()
@@ -226,6 +234,8 @@ def cases(tier):
         for m1 in ("H2O", "He"):
             for a in arrays:
                 out.append({"m1": m1, "m2": m2, "array": a})
+    out.append({"m1": "He", "m2": "HF", "array": {"type": "nongrid", "name": "nongrid_large_17100", "n_pos": 6, "n_generic": 6,
+                                                 "order": "large"}})
     return out
 
 
